@@ -181,6 +181,66 @@ def run_case(case):
                             f"the same time: {type(bad[0]).__name__}: "
                             f"{str(bad[0])[:200]}",
                             key={"handle": "concurrent"})
+                    # ... and over a damaged shard: two threads verify through
+                    # ONE handle at the same time, both must be told
+                    _, _, shards_now = dsgen.walk_tree(root)
+                    if shards_now and st["hashes"]:
+                        import sedpack.io.dataset_writing as sdw
+                        victim = os.path.join(root, shards_now[
+                            case["fault_seed"] % len(shards_now)]["path"])
+                        with fs.suspended():
+                            with fslayer.real_open(victim, "rb") as f:
+                                original = f.read()
+                            if original:
+                                pos = case["fault_seed"] % len(original)
+                                damaged = (original[:pos] +
+                                           bytes([original[pos] ^ 0x21]) +
+                                           original[pos + 1:])
+                                with fslayer.real_open(victim, "wb") as f:
+                                    f.write(damaged)
+                        if original:
+                            shared = hr.sio.Dataset(root)
+                            results = {}
+
+                            def verifier2(slot):
+                                def run():
+                                    try:
+                                        shared.check(show_progressbar=False)
+                                        results[slot] = None
+                                    except S.SimAbort:
+                                        raise
+                                    except Exception as e:  # pylint: disable=broad-except
+                                        results[slot] = e
+                                return run
+
+                            sc.trace_files = frozenset({utils_py,
+                                                        sdw.__file__})
+                            sc.line_prob = 0.3
+                            try:
+                                for slot in range(2):
+                                    sc.spawn(verifier2(slot),
+                                             name=f"verifier{slot}")
+                                sc.drain("concurrent.check.damaged")
+                            finally:
+                                sc.trace_files = frozenset()
+                                sc.line_prob = 0.0
+                                with fs.suspended():
+                                    with fslayer.real_open(victim, "wb") as f:
+                                        f.write(original)
+                            probes["two_concurrent_checks_damaged"] += 1
+                            faults["bitflip_under_two_verifiers"] += 1
+                            unaware = [s_ for s_, e in sorted(results.items())
+                                       if e is None]
+                            if unaware or len(results) < 2:
+                                raise Violation(
+                                    "C05", "alteration_not_detected",
+                                    f"shard {os.path.relpath(victim, root)} "
+                                    f"with one flipped byte, two threads "
+                                    f"verifying through one handle at the "
+                                    f"same time: verifier(s) {unaware} "
+                                    f"returned normally",
+                                    key={"kind": "shard",
+                                         "handle": "concurrent"})
                 # ---------------------------------- negative direction
                 if completed:
                     with fs.suspended():
@@ -363,7 +423,8 @@ def reach(agg):
                  "rollback"):
         if not f.get(name):
             need.append(f"fault {name} never injected")
-    for name in ("two_concurrent_checks", "tree_depth_1", "tree_depth_3",
+    for name in ("two_concurrent_checks", "two_concurrent_checks_damaged",
+                 "tree_depth_1", "tree_depth_3",
                  "target_list_level_3",
                  "target_shard_level_3", "algorithms_13"):
         if not p.get(name):
